@@ -150,6 +150,9 @@ func c13Case(ctx *Ctx, name string, args []cty.Value, zeroStep bool) c13Res {
 	}
 	orc := c13Oracle(name, args, zeroStep)
 	ctx.Add("std.call", r.wire(), name, c13EncArgs(args), "("+strings.Join(orc, " ")+")")
+	// the same call under modelEnv (Stdlib/d13Env.lean): unify, convert, hash and hash-byte order come
+	// from the Lean models of those packages instead of the oracle columns above
+	ctx.Add("std.callm", r.wire(), name, c13EncArgs(args))
 	ctx.Tag("fn:" + name + ":" + r.class)
 	return r
 }
@@ -413,7 +416,12 @@ func c13Oracle(name string, args []cty.Value, zeroStep bool) []string {
 		}
 	case "sethaselement":
 		if len(args) == 2 {
-			e, _ := args[1].UnmarkDeep()
+			// the call protocol unmarks (and thereby REBUILDS any set inside) only an argument that carries a
+			// mark: an unmarked needle reaches Value.Hash as it is, members of a colliding bucket in their own order
+			e := args[1]
+			if e.ContainsMarked() {
+				e, _ = e.UnmarkDeep()
+			}
 			o.hash(e)
 		}
 	case "setunion", "setintersection", "setsubtract", "setsymmetricdifference":
@@ -887,6 +895,7 @@ func runC13(ctx *Ctx) {
 	known := ValOpts{Null: true, Small: true, NoInf: true}
 	sprinkled := ValOpts{Null: true, Small: true, Unknown: true, Marks: true, DynVal: true, NoInf: true}
 	c13Exhaustive(ctx)
+	c13D13(ctx)
 	n := ctx.N(450, 12000)
 	for _, name := range c13Names {
 		for i := 0; i < n; i++ {
